@@ -180,6 +180,9 @@ def optimizer_counts(ctx, rep):
             if kind == "island":
                 for _ in range(rng.randrange(1, 4)):
                     isl.evolve(rng.randrange(1, 4))
+                    if rng.random() < 0.4:
+                        isl.regenerate_population()       # a restart of a stagnated island: the evaluations already made still count
+                        rep.count("optimizer_history", "population regenerated between evolve calls")
                 rep.case(("opt", kind, t), True)
                 rep.count("optimizer", kind)
                 if isl.get_fitness_evaluation_count() != fit.calls:
@@ -195,6 +198,9 @@ def optimizer_counts(ctx, rep):
                 base = [f.calls for f in fits]
                 for _ in range(rng.randrange(1, 3)):
                     arch.evolve(rng.randrange(1, 3))
+                    if rng.random() < 0.4:
+                        rng.choice(arch.islands).regenerate_population()
+                        rep.count("optimizer_history", "one island of the archipelago regenerated between evolve calls")
                 actual = sum(f.calls - b for f, b in zip(fits, base))
                 reported = arch.get_fitness_evaluation_count()
                 rep.case(("opt", kind, t), True)
